@@ -15,6 +15,7 @@ Section Proofs.
   Variable as_key : item -> option K.
   Variable as_item : K -> option item.
   Variable key_of_key : K -> option K.
+  Variable hashable : item -> bool.
   (* keys and items are values: == decides equality *)
   Hypothesis keqb_eq : forall a b, keqb a b = true <-> a = b.
   Hypothesis ieqb_eq : forall a b, ieqb a b = true <-> a = b.
@@ -1032,8 +1033,8 @@ Section Proofs.
   Proof. intro I. eapply NoDup_map_inv. apply inv_vals_nodup. exact I. Qed.
 
   (* ================= every operation ================= *)
-  Notation step := (step key keqb ieqb valid as_key as_item key_of_key).
-  Notation spec_step := (spec_step key keqb ieqb valid key_of_key).
+  Notation step := (step key keqb ieqb valid as_key as_item key_of_key hashable).
+  Notation spec_step := (spec_step key keqb ieqb valid key_of_key hashable).
 
   (* a built-in set operand is given by its iteration order: no item twice *)
   Definition wf_operand (p : @operand item) : Prop :=
@@ -1042,16 +1043,17 @@ Section Proofs.
     match o with OEq p | ONe p => wf_operand p | _ => True end.
 
   Lemma eq_body_spec d p : Inv d -> wf_operand p ->
-    eq_body key keqb ieqb d p =
+    eq_body key keqb ieqb hashable d p =
       match p with
       | PKS _ xs => dict_eq keqb ieqb d (the_map xs)
       | PSelf => dict_eq keqb ieqb d d
-      | PSet xs => forallb (fun v => existsb (fun y => ieqb v y) xs) (vals d)
-                   && forallb (fun y => existsb (fun v => ieqb v y) (vals d)) xs
+      | PSet xs => forallb hashable (vals d)
+                   && (forallb (fun v => existsb (fun y => ieqb v y) xs) (vals d)
+                       && forallb (fun y => existsb (fun v => ieqb v y) (vals d)) xs)
       | PList _ => false
       end.
   Proof.
-    intros I W. destruct p; simpl; auto. apply set_eq_spec; auto. now apply inv_vals_nodup'.
+    intros I W. destruct p; simpl; auto. f_equal. apply set_eq_spec; auto. now apply inv_vals_nodup'.
   Qed.
 
   Theorem step_refines enf d o : Inv d -> TInv d -> wf_op o ->
@@ -1199,8 +1201,8 @@ Section Proofs.
   Qed.
 
   (* ================= sequences of operations ================= *)
-  Notation run := (run key keqb ieqb valid as_key as_item key_of_key).
-  Notation spec_run := (spec_run key keqb ieqb valid key_of_key).
+  Notation run := (run key keqb ieqb valid as_key as_item key_of_key hashable).
+  Notation spec_run := (spec_run key keqb ieqb valid key_of_key hashable).
 
   Theorem run_refines enf ops : forall d,
     Inv d -> TInv d -> Forall wf_op ops ->
